@@ -133,6 +133,16 @@ def rowBlock {K N T : Nat} (H : Mat α (K * N) T) (k : Fin K) : Mat α N T :=
 def tildeIdx {K N : Nat} (k : Fin K) : List (Fin (K * N)) :=
   ((List.finRange K).filter (fun u => u ≠ k)).flatMap (fun u => (List.finRange N).map (join u))
 
+/-- `vtIndexes` of `_get_sub_channel(H, desired_users)` for an iterable of users: for every
+    listed user, in the order given, the rows `range(N*u, (u+1)*N)` (a single integer user `u` is
+    the list `[u]`) -/
+def subIdx {K N : Nat} (users : List (Fin K)) : List (Fin (K * N)) :=
+  users.flatMap (fun u => (List.finRange N).map (join u))
+
+/-- `desiredUsers` of `_get_tilde_channel(H, k)`: `[i for i in range(K) if i != k]` — the users
+    are compared by VALUE -/
+def otherUsers {K : Nat} (k : Fin K) : List (Fin K) := (List.finRange K).filter (fun u => u ≠ k)
+
 /-- fancy row indexing `H[idx, :]` -/
 def rowsOf {R T : Nat} (H : Mat α R T) (idx : List (Fin R)) : Mat α idx.length T :=
   fun r c => H (idx.get r) c
